@@ -1712,6 +1712,10 @@ class SQLObject(with_metaclass(declarative.DeclarativeMeta, object)):
                         if getattr(row, name) == self.id:
                             clear[name] = None
                     row.set(**clear)
+                    if row.sqlmeta.lazyUpdate:
+                        # the reference must be gone from the database
+                        # before the row it points to is deleted
+                        row.syncUpdate()
 
             delete = False
             for _col in cols:
